@@ -4,6 +4,8 @@ import SluProofs.Lemmas.Ilu
 import SluProofs.Lemmas.IluFactor
 import SluProofs.Props.C02
 import SluProofs.Props.C14
+import Slu.Model.IluDrop
+import SluProofs.Lemmas.IluDrop
 /-
 C15 — Incomplete LU never breaks down and is exact when dropping is off.
 
@@ -654,3 +656,144 @@ example := iluFactor_udiag_nonzero_full exIluZ exDropUL false
   (fun _ _ _ => by norm_num [exIluZ, exIlu]) (fun _ j k => by simp only [exDropUL]; split <;> norm_num)
 
 end Slu.Ilu
+
+/-! ## The dropping rules (`ilu_[sd]drop_row`, Slu/Model/IluDrop.lean) — no longer an oracle
+
+`dropBlock` is the two dropping loops and the diagonal compensation of `ilu_?drop_row` on the `m x n` block of a
+supernode (rows in storage order, `n` rows of the diagonal block first); `(dropBlock ..).1` is the loop state on exit
+(`r` rows dropped, kept rows at positions `0..m1`, ghost map `orig` = original position of the row stored at each
+position, ghost `trace` = (original position, norm consulted) of every dropped row, newest first),
+`(dropBlock ..).2.2.1` the rows after the compensation.  All statements hold for EVERY scalar instance (`opsF64`,
+`opsF32` — the executed bit mirrors — and `opsRat`), every norm, rule, MILU mode, tolerance and quota. -/
+namespace Slu.IluDrop
+open Slu Slu.Ilu
+
+section block
+variable {K R T : Type} [Inhabited K] [Inhabited R] [LT R] [DecidableLT R]
+variable (ops : DropOps K R T) (rule : Rule) (milu : Milu) (nrm : Nrm) (dropTol : T) (quota : Int) (alpha : R) (fillTol : T)
+variable (m n : Nat) (rows : Array (Array K)) (subs : Array Int)
+
+/-- **C15 (drop_row: the value returned).** The number of rows dropped plus the number of rows kept (positions
+`0..m1`) is the number of rows of the supernode; one trace entry per dropped row; at least the `n` rows of the diagonal
+block are left. -/
+theorem dropRow_count (hn : 1 ≤ n) (hnm : n < m) (hr : rows.size = m) (hs : subs.size = m) :
+    (dropBlock ops rule milu nrm dropTol quota alpha fillTol m n rows subs).1.r
+      + ((dropBlock ops rule milu nrm dropTol quota alpha fillTol m n rows subs).1.m1 + 1) = m ∧
+    (dropBlock ops rule milu nrm dropTol quota alpha fillTol m n rows subs).1.trace.length
+      = (dropBlock ops rule milu nrm dropTol quota alpha fillTol m n rows subs).1.r ∧
+    n ≤ (dropBlock ops rule milu nrm dropTol quota alpha fillTol m n rows subs).1.m1 + 1 := by
+  have h := (dropBlock_inv ops rule milu nrm dropTol quota alpha fillTol m n rows subs hn hnm hr hs).1
+  exact ⟨by have := h.cnt; omega, h.tlen, h.n_le⟩
+
+/-- **C15 (drop_row: the rows of the diagonal block are never dropped, never moved).** Position `p < n` is a kept
+position, still holds original row `p` with its subscript, no dropped row is a row of the diagonal block, and outside
+its diagonal entry the row is unchanged by the compensation. -/
+theorem dropRow_diag_block_kept (hn : 1 ≤ n) (hnm : n < m) (hr : rows.size = m) (hs : subs.size = m) (p : Nat) (hp : p < n) :
+    p ≤ (dropBlock ops rule milu nrm dropTol quota alpha fillTol m n rows subs).1.m1 ∧
+    (dropBlock ops rule milu nrm dropTol quota alpha fillTol m n rows subs).1.orig[p]! = p ∧
+    (dropBlock ops rule milu nrm dropTol quota alpha fillTol m n rows subs).1.subs[p]! = subs[p]! ∧
+    (∀ e ∈ (dropBlock ops rule milu nrm dropTol quota alpha fillTol m n rows subs).1.trace, e.1 ≠ p) ∧
+    (∀ j, j ≠ p → ((dropBlock ops rule milu nrm dropTol quota alpha fillTol m n rows subs).2.2.1[p]!)[j]! = (rows[p]!)[j]!) := by
+  have h := (dropBlock_inv ops rule milu nrm dropTol quota alpha fillTol m n rows subs hn hnm hr hs).1
+  have hle : p ≤ (dropBlock ops rule milu nrm dropTol quota alpha fillTol m n rows subs).1.m1 := by have := h.n_le; omega
+  have hk := h.kept p hle
+  rw [h.diag p hp] at hk
+  refine ⟨hle, h.diag p hp, hk.2.1, fun e he heq => ?_, fun j hj => ?_⟩
+  · have := (trace_not_kept h e he).1; omega
+  · rw [dropBlock_rows]
+    split
+    · rw [hk.1]
+    · rw [diagFix_get ops milu alpha fillTol m n _ h.rsize hnm p]
+      split
+      · unfold fixedRow
+        split
+        · rw [hk.1]
+        · rw [get!_set_ne _ _ _ _ (fun e => hj e.symm), hk.1]
+      · rw [hk.1]
+
+/-- **C15 (drop_row: the kept rows are original rows, each at most once, with their values).** Every kept position
+`p ≤ m1` holds the original row `orig p < m` (subscript and, below the diagonal block, all values bit for bit; rows of
+the diagonal block: `dropRow_diag_block_kept`), distinct kept positions hold distinct original rows, and none of them
+is a dropped row. -/
+theorem dropRow_kept_subset (hn : 1 ≤ n) (hnm : n < m) (hr : rows.size = m) (hs : subs.size = m) (p : Nat)
+    (hp : p ≤ (dropBlock ops rule milu nrm dropTol quota alpha fillTol m n rows subs).1.m1) :
+    (dropBlock ops rule milu nrm dropTol quota alpha fillTol m n rows subs).1.orig[p]! < m ∧
+    (dropBlock ops rule milu nrm dropTol quota alpha fillTol m n rows subs).1.subs[p]!
+      = subs[(dropBlock ops rule milu nrm dropTol quota alpha fillTol m n rows subs).1.orig[p]!]! ∧
+    (n ≤ p → (dropBlock ops rule milu nrm dropTol quota alpha fillTol m n rows subs).2.2.1[p]!
+      = rows[(dropBlock ops rule milu nrm dropTol quota alpha fillTol m n rows subs).1.orig[p]!]!) ∧
+    (∀ q, q ≤ (dropBlock ops rule milu nrm dropTol quota alpha fillTol m n rows subs).1.m1 →
+      (dropBlock ops rule milu nrm dropTol quota alpha fillTol m n rows subs).1.orig[q]!
+        = (dropBlock ops rule milu nrm dropTol quota alpha fillTol m n rows subs).1.orig[p]! → q = p) ∧
+    (∀ e ∈ (dropBlock ops rule milu nrm dropTol quota alpha fillTol m n rows subs).1.trace,
+      e.1 ≠ (dropBlock ops rule milu nrm dropTol quota alpha fillTol m n rows subs).1.orig[p]!) := by
+  have h := (dropBlock_inv ops rule milu nrm dropTol quota alpha fillTol m n rows subs hn hnm hr hs).1
+  have hk := h.kept p hp
+  have hc := h.cnt
+  refine ⟨hk.2.2, hk.2.1, fun hnp => ?_, fun q hq heq => h.inj q p (by omega) (by omega) heq, fun e he heq => ?_⟩
+  · rw [dropBlock_rows]
+    split
+    · exact hk.1
+    · rw [diagFix_get ops milu alpha fillTol m n _ h.rsize hnm p]
+      have : ¬ (milu ≠ Milu.silu ∧ p < n) := by omega
+      rw [if_neg this]; exact hk.1
+  · exact (trace_not_kept h e he).2 p hp heq.symm
+
+/-- **C15 (drop_row: the thresholds).** There is a secondary threshold `tol` such that every dropped row was either
+dropped by the first loop — then the norm recorded IS the norm of that row and it is `< drop_tol` (strictly) — or by
+the second loop with the norm CONSULTED `<= tol`.  (The consulted norm `temp[i]` of a row that was moved by the second
+loop is the norm of another row: `dropRow_secondary_uses_neighbour_norm` below.) -/
+theorem dropRow_threshold (hn : 1 ≤ n) (hnm : n < m) (hr : rows.size = m) (hs : subs.size = m) :
+    ∃ tol, ∀ e ∈ (dropBlock ops rule milu nrm dropTol quota alpha fillTol m n rows subs).1.trace,
+      (e.2 = ops.rowNorm nrm rows[e.1]! ∧ ops.ltTol e.2 dropTol = true) ∨ ops.leTol e.2 tol = true :=
+  (dropBlock_inv ops rule milu nrm dropTol quota alpha fillTol m n rows subs hn hnm hr hs).2
+
+/-- **C15 (drop_row: first loop only).** Without a secondary rule bit nothing is dropped unless `DROP_BASIC` is set, and
+every dropped row has its own norm strictly below `drop_tol`. -/
+theorem dropRow_threshold_basic (hn : 1 ≤ n) (hnm : n < m) (hr : rows.size = m) (hs : subs.size = m) (hsec : rule.secondary = false) :
+    (∀ e ∈ (dropBlock ops rule milu nrm dropTol quota alpha fillTol m n rows subs).1.trace,
+      e.2 = ops.rowNorm nrm rows[e.1]! ∧ ops.ltTol e.2 dropTol = true) ∧
+    (rule.basic = false → (dropBlock ops rule milu nrm dropTol quota alpha fillTol m n rows subs).1.r = 0) := by
+  have h0 := inv_init ops milu m n hnm rows subs hr hs (Array.replicate m ops.zeroR) ops.zeroR ops.oneR
+  obtain ⟨_, q1, r1⟩ := pass1_inv ops nrm milu rule.basic dropTol m n rows subs hn (m - n) n _ (Nat.le_refl _) h0 (by intro e he; simp at he)
+  have hsec' : ∀ s : DSt K R, (secondary ops rule milu quota m n s).1 = s := by
+    intro s; unfold secondary; simp [hsec]
+  have hb : (dropBlock ops rule milu nrm dropTol quota alpha fillTol m n rows subs).1 =
+      pass1 ops nrm milu rule.basic dropTol m (m - n) n
+        { rows := rows, subs := subs, temp := Array.replicate m ops.zeroR, m1 := m - 1, r := 0, dmax := ops.zeroR, dmin := ops.oneR,
+          orig := Array.range m } := by
+    unfold dropBlock; dsimp only; split <;> exact hsec' _
+  rw [hb]
+  exact ⟨q1, r1⟩
+
+/-- **C15 (drop_row: the MILU compensation).** Once a row has been dropped, row `m-1` of the block holds the
+accumulated compensation `accOf` of the dropped rows in the order they were dropped (first one copied — through `fabs`
+under SMILU_3 —, later ones added: signed under SMILU_1/2, moduli under SMILU_3; this is the exact order of the
+floating-point additions), and the diagonal entry of column `j` becomes `diagComp milu alpha fill_tol (old diagonal)
+(accumulator entry j)` unless that accumulator entry is zero or MILU is off. -/
+theorem dropRow_milu_sum (hn : 1 ≤ n) (hnm : n < m) (hr : rows.size = m) (hs : subs.size = m)
+    (hpos : 0 < (dropBlock ops rule milu nrm dropTol quota alpha fillTol m n rows subs).1.r) :
+    (dropBlock ops rule milu nrm dropTol quota alpha fillTol m n rows subs).1.rows[m - 1]! =
+      accOf ops milu ((dropBlock ops rule milu nrm dropTol quota alpha fillTol m n rows subs).1.trace.reverse.map fun e => rows[e.1]!) ∧
+    ∀ j, j < n → j < (rows[j]!).size →
+      ((dropBlock ops rule milu nrm dropTol quota alpha fillTol m n rows subs).2.2.1[j]!)[j]! =
+        if milu = .silu ∨ ops.isZero (((dropBlock ops rule milu nrm dropTol quota alpha fillTol m n rows subs).1.rows[m - 1]!)[j]!) = true
+        then (rows[j]!)[j]!
+        else (ops.diagComp milu alpha fillTol ((rows[j]!)[j]!)
+              (((dropBlock ops rule milu nrm dropTol quota alpha fillTol m n rows subs).1.rows[m - 1]!)[j]!)).1 := by
+  have h := (dropBlock_inv ops rule milu nrm dropTol quota alpha fillTol m n rows subs hn hnm hr hs).1
+  refine ⟨h.acc hpos, fun j hj hjs => ?_⟩
+  have hle : j ≤ (dropBlock ops rule milu nrm dropTol quota alpha fillTol m n rows subs).1.m1 := by have := h.n_le; omega
+  have hk := (h.kept j hle).1
+  rw [h.diag j hj] at hk
+  rw [dropBlock_rows, if_neg (by omega), diagFix_get ops milu alpha fillTol m n _ h.rsize hnm j]
+  by_cases hm : milu = .silu
+  · rw [if_neg (by simp [hm]), if_pos (Or.inl hm), hk]
+  · simp only [hm, ne_eq, not_false_eq_true, hj, and_self, if_true, false_or]
+    unfold fixedRow
+    split
+    · rw [hk]
+    · rw [hk, get!_set_eq _ _ _ hjs]
+
+end block
+end Slu.IluDrop
